@@ -16,7 +16,10 @@ RULE = ('format table (least-significant field first) driving three generators p
 
 def SPEC(tier):
     # second build with GLM_FORCE_INTRINSICS: packing code has architecture-dependent branches even behind packed types
-    return {'stages': [Stage('opt', SRCS), Stage('opt-avx2', SRCS, flags=['-DGLM_FORCE_INTRINSICS', '-mavx2'], scale=0.25)], 'rule': RULE,
+    # third build with the other ABI choices a port meets: plain char unsigned (ARM, PowerPC, RISC-V Linux) and the Microsoft bit-field
+    # layout (MinGW, -mms-bitfields); the packed formats are defined by the specification, not by these choices
+    return {'stages': [Stage('opt', SRCS), Stage('opt-avx2', SRCS, flags=['-DGLM_FORCE_INTRINSICS', '-mavx2'], scale=0.25),
+                       Stage('opt-abi', SRCS, flags=['-funsigned-char', '-mms-bitfields'], scale=0.25)], 'rule': RULE,
             'assumptions': list(COMMON_ASSUME) + [
                 'little-endian two\'s-complement target with the GCC/Clang bit-field layout (first member in the least-significant bits)',
                 'NaN is not passed to the normalised packers ("any real x"); it is passed to packF2x11_1x10, which tests for it explicitly',
